@@ -16,6 +16,7 @@ import (
 	"path/filepath"
 	"regexp"
 	"runtime/debug"
+	"sort"
 	"strings"
 	"sync"
 	"syscall"
@@ -46,19 +47,25 @@ type bres struct {
 // batchOps are the operations a worker can run on a case.
 var batchOps = map[string]func(cs bcase) map[string]any{}
 
-var frameFuncRe = regexp.MustCompile(`^(cuelang\.org/go/[^\s(]+)`)
 
 // crashSite extracts the call-site signature: the innermost three distinct cuelang.org/go frames
 // (outside the harness) of a crash dump, line numbers stripped.
 func crashSite(dump string) string {
+	if strings.Contains(dump, "stack overflow") || strings.Contains(dump, "goroutine stack exceeds") {
+		return "recursion{" + recursionCycle(dump) + "}"
+	}
 	var fr []string
 	for _, line := range strings.Split(dump, "\n") {
 		line = strings.TrimSpace(line)
-		m := frameFuncRe.FindStringSubmatch(line)
-		if m == nil || strings.Contains(m[1], "cuelang.org/go/verifh/") {
+		if !strings.HasPrefix(line, "cuelang.org/go/") || strings.Contains(line, "cuelang.org/go/verifh/") {
 			continue
 		}
-		f := m[1]
+		// "pkg.(*T).Method(0x1, {...})": the argument list starts at the last "("
+		i := strings.LastIndexByte(line, '(')
+		if i <= 0 {
+			continue
+		}
+		f := line[:i]
 		// strip generic instantiation and closure suffixes
 		f = regexp.MustCompile(`\[\.\.\.\]|\.func\d+(\.\d+)*|\.gowrap\d+`).ReplaceAllString(f, "")
 		if len(fr) > 0 && fr[len(fr)-1] == f {
@@ -147,7 +154,7 @@ func (c *Ctx) RunBatch(cases []bcase, perCase time.Duration) map[string]*bres {
 			gen := 0
 			for len(todo) > 0 {
 				gen++
-				done, crashedID, status, dump := c.runWorkerOnce(dir, fmt.Sprintf("%d-%d", k, gen), todo, perCase)
+				done, crashedID, status, dump, site := c.runWorkerOnce(dir, fmt.Sprintf("%d-%d", k, gen), todo, perCase)
 				mu.Lock()
 				for id, r := range done {
 					results[id] = r
@@ -162,7 +169,7 @@ func (c *Ctx) RunBatch(cases []bcase, perCase time.Duration) map[string]*bres {
 					}
 					if skipping && cs.ID == crashedID {
 						mu.Lock()
-						results[cs.ID] = &bres{ID: cs.ID, Status: status, Crash: dump, Site: crashSite(dump)}
+						results[cs.ID] = &bres{ID: cs.ID, Status: status, Crash: dump, Site: site}
 						mu.Unlock()
 						skipping = false
 						continue
@@ -186,13 +193,13 @@ func (c *Ctx) RunBatch(cases []bcase, perCase time.Duration) map[string]*bres {
 	return results
 }
 
-func (c *Ctx) runWorkerOnce(dir, tag string, todo []bcase, perCase time.Duration) (done map[string]*bres, inflight, status, dump string) {
+func (c *Ctx) runWorkerOnce(dir, tag string, todo []bcase, perCase time.Duration) (done map[string]*bres, inflight, status, dump, site string) {
 	done = map[string]*bres{}
 	inPath := filepath.Join(dir, "batch-in-"+tag+".jsonl")
 	errPath := filepath.Join(dir, "batch-err-"+tag+".txt")
 	f, err := os.Create(inPath)
 	if err != nil {
-		return done, "", "crash", err.Error()
+		return done, "", "crash", err.Error(), ""
 	}
 	bw := bufio.NewWriter(f)
 	for _, cs := range todo {
@@ -206,13 +213,17 @@ func (c *Ctx) runWorkerOnce(dir, tag string, todo []bcase, perCase time.Duration
 	defer os.Remove(errPath)
 	errF, _ := os.Create(errPath)
 	cmd := exec.Command(c.Self, "-worker", "batch", inPath)
+	if c.ASLimitKB > 0 {
+		// address-space envelope: a runaway allocation ends the worker with "out of memory"
+		cmd = exec.Command("sh", "-c", fmt.Sprintf("ulimit -v %d; exec \"$0\" \"$@\"", c.ASLimitKB), c.Self, "-worker", "batch", inPath)
+	}
 	cmd.Stderr = errF
 	cmd.Env = append(os.Environ(), "GOTRACEBACK=all", "GOMAXPROCS=2")
 	cmd.SysProcAttr = &syscall.SysProcAttr{Setpgid: true}
 	stdout, _ := cmd.StdoutPipe()
 	if err := cmd.Start(); err != nil {
 		errF.Close()
-		return done, "", "crash", err.Error()
+		return done, "", "crash", err.Error(), ""
 	}
 	lines := make(chan string, 16)
 	go func() {
@@ -268,13 +279,18 @@ loop:
 	errF.Close()
 	eb, _ := os.ReadFile(errPath)
 	dump = string(eb)
+	if i := strings.Index(dump, "fatal error:"); i >= 0 {
+		site = crashSite(dump[i:])
+	} else {
+		site = crashSite(dump)
+	}
 	if timedOut {
-		return done, inflight, "timeout", excerptCrash(dump)
+		return done, inflight, "timeout", excerptCrash(dump), site
 	}
 	if inflight != "" {
-		return done, inflight, "crash", excerptCrash(dump)
+		return done, inflight, "crash", excerptCrash(dump), site
 	}
-	return done, "", "", excerptCrash(dump)
+	return done, "", "", excerptCrash(dump), site
 }
 
 // excerptCrash keeps the message, the innermost frames of the crashing goroutine and, for deep
@@ -306,4 +322,36 @@ func excerptCrash(t string) string {
 		return trunc9(first, 2500) + "\n[...]\n" + first[lo:min(len(first), e+200)] + "\n[...]\n" + tail
 	}
 	return trunc9(first, 8000)
+}
+
+// recursionCycle is the signature of a runaway recursion: the sorted set of distinct cuelang.org/go
+// functions among the innermost 40 frames (the innermost frame itself is an arbitrary point of the
+// cycle, the set of functions on the cycle is stable).
+func recursionCycle(dump string) string {
+	set := map[string]bool{}
+	n := 0
+	for _, line := range strings.Split(dump, "\n") {
+		line = strings.TrimSpace(line)
+		if !strings.HasPrefix(line, "cuelang.org/go/") || strings.Contains(line, "cuelang.org/go/verifh/") {
+			continue
+		}
+		i := strings.LastIndexByte(line, '(')
+		if i <= 0 {
+			continue
+		}
+		f := line[:i]
+		f = regexp.MustCompile(`\[\.\.\.\]|\.func\d+(\.\d+)*|\.gowrap\d+`).ReplaceAllString(f, "")
+		f = strings.TrimPrefix(f, "cuelang.org/go/internal/core/")
+		set[f] = true
+		n++
+		if n >= 40 {
+			break
+		}
+	}
+	var names []string
+	for f := range set {
+		names = append(names, f)
+	}
+	sort.Strings(names)
+	return strings.Join(names, ",")
 }
